@@ -1277,6 +1277,24 @@ func isMetaField(field string) bool {
 	return strings.HasSuffix(field, "_user") || strings.HasSuffix(field, "_time")
 }
 
+// sameValue returns true if a posted value equals the stored one.  A number's Go type
+// depends on its spelling (2.0 is a float64 when posted but is stored as 2 and read back
+// as a uint64), so values that differ only in type are compared by their JSON encoding.
+func sameValue(value, origValue interface{}) bool {
+	if reflect.DeepEqual(value, origValue) {
+		return true
+	}
+	valueJSON, err := json.Marshal(value)
+	if err != nil {
+		return false
+	}
+	origJSON, err := json.Marshal(origValue)
+	if err != nil {
+		return false
+	}
+	return bytes.Equal(valueJSON, origJSON)
+}
+
 // update _user and _time fields for any fields newly set or modified.
 func updateJSON(origData, newData NeuronJSON, user string, conditionals []string, replace bool) {
 
@@ -1342,7 +1360,7 @@ func updateJSON(origData, newData NeuronJSON, user string, conditionals []string
 		}
 	} else {
 		for field, value := range newData {
-			if origValue, found := origData[field]; !found || isMetaField(field) || !reflect.DeepEqual(value, origValue) {
+			if origValue, found := origData[field]; !found || isMetaField(field) || !sameValue(value, origValue) {
 				newlySet[field] = struct{}{}
 			}
 			if !isMetaField(field) {
